@@ -166,6 +166,18 @@ class AttentionH(Harness):
             for b in range(B):
                 for i in range(Vs):
                     viol.append((f"output ({b},{i}) changes when masked keys/values are replaced", s_not(s_eq_total(on[b][i], o2[b][i]))))
+            # model preferences (as for tie-freeness: tried first, dropped if unsatisfiable): a counterexample of the abstraction is only meaningful on the real
+            # library if some element has two kept and one masked position, distinct kept values and a query that is not orthogonal to everything
+            if T >= 3:
+                for b in range(B):
+                    kept = sum(z3.If(m[t][b], 1, 0) for t in range(T))
+                    eng.tie_free.append(z3.And(kept >= 2, kept < T))
+                    eng.tie_free.extend(z3.Or(x >= 1, x <= -1) for x in q[b])
+                    for t in range(T):
+                        eng.tie_free.extend(z3.Or(k[t][b][i] >= 1, k[t][b][i] <= -1) for i in range(Q))
+                        for t2 in range(t + 1, T):
+                            eng.tie_free.extend(z3.Or(v[t][b][i] - v[t2][b][i] >= 1, v[t2][b][i] - v[t][b][i] >= 1) for i in range(Vs))
+                            eng.tie_free.append(z3.Or(*[z3.Or(k[t][b][i] - k[t2][b][i] >= 1, k[t2][b][i] - k[t][b][i] >= 1) for i in range(Q)]))
         elif prop == "perm":
             for perm in itertools.permutations(range(T)):
                 if list(perm) == list(range(T)):
@@ -216,11 +228,15 @@ class AttentionH(Harness):
                 if not (torch.isfinite(out[b]).all() and (out[b] >= lo - 1e-9).all() and (out[b] <= hi + 1e-9).all()):
                     failures.append(f"element {b}: output {out[b].tolist()} outside [{lo.tolist()},{hi.tolist()}]")
         elif prop == "blind":
+            # what sits at masked positions is universally quantified in the property ("replaced by anything"): the replay tries junk of several magnitudes
             g = torch.Generator().manual_seed(0)
-            k2 = torch.where(m.unsqueeze(-1), k, torch.randn(k.shape, generator=g, dtype=torch.float64) * 5)
-            v2 = torch.where(m.unsqueeze(-1), v, torch.randn(v.shape, generator=g, dtype=torch.float64) * 5)
-            if not torch.allclose(out, run(k2, v2, m), atol=1e-9):
-                failures.append("output changes when masked keys/values are replaced")
+            for scale in (5.0, -5.0, 1e6, -1e6, 1e12, -1e12, 1e17, -1e17):
+                k2 = torch.where(m.unsqueeze(-1), k, torch.randn(k.shape, generator=g, dtype=torch.float64) * scale)
+                v2 = torch.where(m.unsqueeze(-1), v, torch.randn(v.shape, generator=g, dtype=torch.float64) * scale)
+                o2 = run(k2, v2, m)
+                if not torch.allclose(out, o2, atol=1e-9):
+                    failures.append(f"output changes (max abs difference {(out - o2).abs().max().item():.3g}) when masked keys/values are replaced by junk of magnitude {abs(scale):g}")
+                    break
         elif prop == "perm":
             for perm in itertools.permutations(range(T)):
                 p = list(perm)
